@@ -369,6 +369,12 @@ type scenario struct {
 	Existing  []existingPkg     `json:"existing,omitempty"`
 	Requested []requestedPkg    `json:"requested,omitempty"`
 	Runs      int               `json:"runs"`
+	// Interloper: a second initializer B (same options, e.g. another replica's init
+	// container) executes between API call IK-1 and IK of the first run. IM == 0: B
+	// runs to completion; IM > 0: B dies right after its IM-th write to a Secret.
+	Inter bool `json:"interloper,omitempty"`
+	IK    int  `json:"ik,omitempty"`
+	IM    int  `json:"im,omitempty"`
 }
 
 var (
@@ -573,6 +579,11 @@ func genScenario(f *clusterFiles, tlsMode string, light bool) *rapid.Generator[s
 			}
 		}
 		sc.Runs = rapid.IntRange(1, 3).Draw(t, "runs")
+		if rapid.IntRange(0, 2).Draw(t, "interloper") == 0 {
+			sc.Inter = true
+			sc.IK = rapid.IntRange(0, 70).Draw(t, "ik")
+			sc.IM = rapid.IntRange(0, 3).Draw(t, "im")
+		}
 		return sc
 	})
 }
@@ -713,6 +724,135 @@ func (w *world) run(plan map[int]verifsim.Fault) (*verifsim.Run, error) {
 	run := w.sim.NewRun("init", plan)
 	err := initializer.New(run.Client(), logging.NewNopLogger(), w.steps()...).Init(context.Background())
 	return run, err
+}
+
+// hookClient wraps a client: it can run a hook right before the n-th API call and
+// can "kill the process" (every later call fails without effect) right after the
+// m-th successful write to a Secret.
+type hookClient struct {
+	client.Client
+	n            int
+	before       func(n int)
+	crashAfter   int
+	secretWrites int
+	crashed      bool
+}
+
+var errKilled = fmt.Errorf("c20: initializer process killed (context canceled)")
+
+func (h *hookClient) pre() error {
+	if h.crashed {
+		return errKilled
+	}
+	if h.before != nil {
+		h.before(h.n)
+	}
+	h.n++
+	return nil
+}
+
+func (h *hookClient) post(obj client.Object, err error) error {
+	if _, ok := obj.(*corev1.Secret); ok && err == nil {
+		h.secretWrites++
+		if h.crashAfter > 0 && h.secretWrites >= h.crashAfter {
+			h.crashed = true
+		}
+	}
+	return err
+}
+
+func (h *hookClient) Get(ctx context.Context, key client.ObjectKey, obj client.Object, opts ...client.GetOption) error {
+	if err := h.pre(); err != nil {
+		return err
+	}
+	return h.Client.Get(ctx, key, obj, opts...)
+}
+
+func (h *hookClient) List(ctx context.Context, list client.ObjectList, opts ...client.ListOption) error {
+	if err := h.pre(); err != nil {
+		return err
+	}
+	return h.Client.List(ctx, list, opts...)
+}
+
+func (h *hookClient) Create(ctx context.Context, obj client.Object, opts ...client.CreateOption) error {
+	if err := h.pre(); err != nil {
+		return err
+	}
+	return h.post(obj, h.Client.Create(ctx, obj, opts...))
+}
+
+func (h *hookClient) Update(ctx context.Context, obj client.Object, opts ...client.UpdateOption) error {
+	if err := h.pre(); err != nil {
+		return err
+	}
+	return h.post(obj, h.Client.Update(ctx, obj, opts...))
+}
+
+func (h *hookClient) Patch(ctx context.Context, obj client.Object, p client.Patch, opts ...client.PatchOption) error {
+	if err := h.pre(); err != nil {
+		return err
+	}
+	return h.post(obj, h.Client.Patch(ctx, obj, p, opts...))
+}
+
+func (h *hookClient) Delete(ctx context.Context, obj client.Object, opts ...client.DeleteOption) error {
+	if err := h.pre(); err != nil {
+		return err
+	}
+	return h.Client.Delete(ctx, obj, opts...)
+}
+
+func (h *hookClient) DeleteAllOf(ctx context.Context, obj client.Object, opts ...client.DeleteAllOfOption) error {
+	if err := h.pre(); err != nil {
+		return err
+	}
+	return h.Client.DeleteAllOf(ctx, obj, opts...)
+}
+
+func (h *hookClient) Status() client.SubResourceWriter { return &hookStatus{h, h.Client.Status()} }
+
+type hookStatus struct {
+	h *hookClient
+	w client.SubResourceWriter
+}
+
+func (s *hookStatus) Create(ctx context.Context, obj client.Object, sub client.Object, opts ...client.SubResourceCreateOption) error {
+	if err := s.h.pre(); err != nil {
+		return err
+	}
+	return s.w.Create(ctx, obj, sub, opts...)
+}
+
+func (s *hookStatus) Update(ctx context.Context, obj client.Object, opts ...client.SubResourceUpdateOption) error {
+	if err := s.h.pre(); err != nil {
+		return err
+	}
+	return s.w.Update(ctx, obj, opts...)
+}
+
+func (s *hookStatus) Patch(ctx context.Context, obj client.Object, p client.Patch, opts ...client.SubResourcePatchOption) error {
+	if err := s.h.pre(); err != nil {
+		return err
+	}
+	return s.w.Patch(ctx, obj, p, opts...)
+}
+
+// runInterleaved runs initializer A; right before A's API call number k a second
+// initializer B with the same options runs (to completion if m == 0, else until it
+// is killed right after its m-th write to a Secret). It reports whether B ran.
+func (w *world) runInterleaved(k, m int) (fired bool, errA error, errB error) {
+	a := &hookClient{Client: w.sim.NewRun("init", nil).Client()}
+	a.before = func(n int) {
+		if n != k || fired {
+			return
+		}
+		fired = true
+		b := &hookClient{Client: w.sim.NewRun("init-b", nil).Client(), crashAfter: m}
+		errB = initializer.New(b, logging.NewNopLogger(), w.steps()...).Init(context.Background())
+	}
+	errA = initializer.New(a, logging.NewNopLogger(), w.steps()...).Init(context.Background())
+	return fired, errA, errB
 }
 
 func pick(src map[string][]byte, st secretState) map[string][]byte {
@@ -1421,7 +1561,23 @@ func (w *world) nonTrivial() bool {
 // runAndCheck performs sc.Runs fault-free initialisations and checks every clause.
 func (w *world) runAndCheck(rec *verifkit.Recorder) {
 	before := w.sim.State()
-	_, err := w.run(nil)
+	var err error
+	if w.sc.Inter {
+		var fired bool
+		fired, err, _ = w.runInterleaved(w.sc.IK, w.sc.IM)
+		if fired {
+			rec.Labelf("interloper:fired/A-failed=%v", err != nil)
+			w.checkSafety("run 1 (interleaved with a second initializer)", before, w.sim.State())
+			if err != nil && !w.allowedFailure(err) {
+				// Losing a race (AlreadyExists, Conflict) aborts the run; it is then repeated.
+				_, err = w.run(nil)
+			}
+		} else {
+			rec.Label("interloper:not-reached")
+		}
+	} else {
+		_, err = w.run(nil)
+	}
 	after := w.sim.State()
 	w.checkSafety("run 1", before, after)
 	if err != nil {
@@ -1590,6 +1746,74 @@ func TestVerifC20SweepTLS(t *testing.T) {
 	})
 }
 
+// interloperSweep: for every API call of run A that touches a Secret, a second
+// initializer B runs right before it - to completion, or killed after its 1st,
+// 2nd or 3rd Secret write; A may then lose a race and abort, a fault-free run
+// follows, and the end state must satisfy every clause.
+func (w *world) interloperSweep(rec *verifkit.Recorder) {
+	base := w.sim.Snapshot()
+	before := w.sim.State()
+	probe, err := w.run(nil)
+	if err != nil {
+		w.fail("VIOLATION interloper probe: fault-free initialisation failed: %v", err)
+	}
+	for k := 0; k < probe.N; k++ {
+		if !strings.Contains(probe.Calls[k], "/Secret/") {
+			continue
+		}
+		for _, m := range []int{1, 2, 3, 0} {
+			w.sim.Restore(base)
+			ctx := fmt.Sprintf("second initializer (killed after Secret write %d; 0 = runs to completion) before API call %d of %d [%s]", m, k, probe.N, probe.Calls[k])
+			fired, errA, _ := w.runInterleaved(k, m)
+			rec.AddExtra("interleaved_runs", 1)
+			if !fired {
+				w.fail("HARNESS %s: the interloper did not run", ctx)
+			}
+			w.checkSafety(ctx+" / interleaved", before, w.sim.State())
+			rec.Labelf("interloper-sweep:A-failed=%v", errA != nil)
+			if _, err := w.run(nil); err != nil {
+				w.fail("VIOLATION %s: the fault-free run after the interleaving failed: %v (first initializer: %v)", ctx, err, errA)
+			}
+			got := w.sim.State()
+			w.checkSafety(ctx+" / final run", before, got)
+			w.checkComplete(ctx+" / final run", before, got)
+			d := w.sim.Digest()
+			if m == 0 {
+				if _, err := w.run(nil); err != nil || w.sim.Digest() != d {
+					w.fail("VIOLATION %s: a further run failed (%v) or changed the store:\n%s", ctx, err, diffLines(d, w.sim.Digest()))
+				}
+			}
+			rec.NonTrivial(fmt.Sprintf("interloper|%s|%d|%d", caseKey(w.sc), k, m), func() any {
+				return map[string]any{"scenario": w.sc, "interloper_before_call": k, "call": probe.Calls[k], "killed_after_secret_write": m, "first_initializer_error": fmt.Sprint(errA)}
+			})
+		}
+	}
+	w.sim.Restore(base)
+}
+
+// TestVerifC20Interloper: two initializers (e.g. two replicas' init containers) on a
+// cluster whose CA is not complete yet.
+func TestVerifC20Interloper(t *testing.T) {
+	f, err := loadFiles()
+	if err != nil {
+		t.Fatalf("VERIF-INCONCLUSIVE: cannot load cluster files: %v", err)
+	}
+	rec := verifkit.New(t, "C20", "interloper sweep: clusters without a complete CA; before every API call of run A on a Secret a second initializer runs (complete, or killed after its 1st/2nd/3rd Secret write), then a fault-free run")
+	rapid.Check(t, func(t *rapid.T) {
+		sc := genScenario(f, "any", true).Filter(func(sc scenario) bool {
+			s := sc.Server
+			refused := sc.Opts.Webhook && s.Present && !s.has("tls.crt") && len(s.Keys) > 0
+			caComplete := sc.CA.Present && sc.CA.has("tls.crt") && sc.CA.has("tls.key")
+			return !refused && !caComplete
+		}).Draw(t, "scenario")
+		sc.Inter = false
+		rec.Eval()
+		w := newWorld(sc, f, func(f string, a ...any) { t.Fatalf(f, a...) })
+		w.label(rec)
+		w.interloperSweep(rec)
+	})
+}
+
 // ---------------------------------------------------------------------------
 // pinned regression rows
 
@@ -1637,6 +1861,16 @@ func TestVerifC20Pinned(t *testing.T) {
 		"partial-ess-crt-only": func(sc *scenario) {
 			sc.Opts.ESS = true
 			sc.ESSSecret = secretState{Present: true, Keys: []string{"tls.crt"}, Extra: true}
+		},
+		// C20-b (seeded): initializer B creates the CA secret between A's Get (NotFound) and
+		// Create and dies; A must not go on signing with the CA it generated locally.
+		"interloper-creates-ca-between-get-and-create": func(sc *scenario) {
+			*sc = scenario{Opts: sc.Opts, Mode: "empty", Webhooks: "absent", Lock: "absent", Store: "absent", DRC: "absent", Runs: 2, CRDs: map[string]string{},
+				Inter: true, IK: 1, IM: 1}
+		},
+		"interloper-creates-ca-and-server-secret": func(sc *scenario) {
+			*sc = scenario{Opts: sc.Opts, Mode: "empty", Webhooks: "absent", Lock: "absent", Store: "absent", DRC: "absent", Runs: 2, CRDs: map[string]string{},
+				Inter: true, IK: 1, IM: 2}
 		},
 		"fresh-cluster": func(sc *scenario) {
 			*sc = scenario{Opts: sc.Opts, Mode: "empty", Webhooks: "absent", Lock: "absent", Store: "absent", DRC: "absent", Runs: 3, CRDs: map[string]string{},
